@@ -1,17 +1,18 @@
---------------------------- MODULE Trace_Calling ---------------------------
-(* Trace validation for C01 and C02 (ops distinguish): one recorded call of the real code per record; verdicts are     *)
-(* carried as state (total verdicts) and read from the dump.                                 *)
-EXTENDS Calling, Json, IOUtils
+--------------------------- MODULE Trace_Formats ---------------------------
+(* Trace validation for C08: one recorded case of the real code per record (a written file, a table *)
+(* read from a fixture, an auto-detected read, a write-read-write round trip, an export seg /       *)
+(* import-seg round trip); verdicts are carried as state (total verdicts) and read from the dump.   *)
+EXTENDS Formats, Json, IOUtils
 Trace == JsonDeserialize(IOEnv.TRACE_FILE)
 VARIABLES i, ph, failed, scope, triggers, drift, checked
 vars == <<i, ph, failed, scope, triggers, drift, checked>>
 Init == /\ i \in 1..Len(Trace) /\ ph = "call"
         /\ failed = {} /\ scope = TRUE /\ triggers = {} /\ drift = FALSE /\ checked = {}
 Next == /\ ph = "call" /\ ph' = "ret" /\ UNCHANGED i
-        /\ LET r == Decode(Trace[i]) IN
+        /\ LET r == Trace[i] IN
            /\ scope' = Premise(r)
            /\ checked' = IF scope' THEN Clauses(r.op) ELSE {}
-           /\ failed' = {c \in checked' : ~Holds(c, r)}
+           /\ failed' = IF scope' THEN LET v == Verdict(r) IN {c \in checked' : ~v[c]} ELSE {}
            /\ triggers' = {t \in KnownTriggers : TriggerHolds(t, r)}
            /\ drift' = (scope' /\ failed' = {} /\ Drift(r))
 Spec == Init /\ [][Next]_vars
